@@ -684,4 +684,17 @@ theorem findKeyed_complete {k : String} {defs : List SrcDef} (h : ∃ d ∈ defs
         rw [hr] at hd
         cases hd
 
+
+/-! lexical CTE visibility -/
+
+theorem parentEnvAt_copies (E : CteEnv) (sibs : List CteEnv) (i : Nat) : parentEnvAt true E sibs i = E := by
+  induction sibs generalizing i with
+  | nil => cases i <;> rfl
+  | cons own rest ih =>
+    cases i with
+    | zero => rfl
+    | succ i =>
+      simp only [parentEnvAt, afterChild, Bool.true_or, if_true]
+      exact ih i
+
 end SqlglotModel.Lineage
